@@ -38,6 +38,8 @@ pub const REQ_KINDS: &[&str] = &[
 pub enum Ev {
     Open { file: String, text: String },
     Change { file: String, text: String },
+    /// one didChange notification carrying 0, 2 or 3 content changes (full texts); the last one counts
+    ChangeN { file: String, texts: Vec<String> },
     Close { file: String },
     /// disk state change, only generated immediately before a buffer event
     Disk { file: String, state: DiskState },
@@ -85,6 +87,7 @@ impl Ev {
         match self {
             Ev::Open { file, text } => json!({"op": "open", "file": file, "text": text}),
             Ev::Change { file, text } => json!({"op": "change", "file": file, "text": text}),
+            Ev::ChangeN { file, texts } => json!({"op": "change_n", "file": file, "texts": texts}),
             Ev::Close { file } => json!({"op": "close", "file": file}),
             Ev::Disk { file, state } => json!({"op": "disk", "file": file, "state": state.to_json()}),
             Ev::Req { kind, file, line, col, extra, pos_kind } => {
@@ -97,6 +100,10 @@ impl Ev {
         match v.get("op")?.as_str()? {
             "open" => Some(Ev::Open { file: s("file")?, text: s("text")? }),
             "change" => Some(Ev::Change { file: s("file")?, text: s("text")? }),
+            "change_n" => Some(Ev::ChangeN {
+                file: s("file")?,
+                texts: v.get("texts")?.as_array()?.iter().map(|t| t.as_str().map(|x| x.to_string())).collect::<Option<Vec<_>>>()?,
+            }),
             "close" => Some(Ev::Close { file: s("file")? }),
             "disk" => Some(Ev::Disk { file: s("file")?, state: DiskState::from_json(v.get("state")?)? }),
             "req" => Some(Ev::Req {
@@ -114,6 +121,7 @@ impl Ev {
         match self {
             Ev::Open { .. } => "open".into(),
             Ev::Change { .. } => "change".into(),
+            Ev::ChangeN { texts, .. } => format!("change_with_{}_content_changes", texts.len()),
             Ev::Close { .. } => "close".into(),
             Ev::Disk { state, .. } => state.name().into(),
             Ev::Req { kind, .. } => kind.clone(),
@@ -164,7 +172,13 @@ fn abs(file: &str) -> PathBuf {
     }
 }
 
+/// a document that has no file yet, as editors present it
+pub const UNTITLED: &str = "untitled:Untitled-1";
+
 fn uri(file: &str) -> String {
+    if file.starts_with("untitled:") {
+        return file.to_string();
+    }
     lsp_types::Url::from_file_path(abs(file)).unwrap().to_string()
 }
 
@@ -306,6 +320,11 @@ fn did_open(file: &str, text: &str, version: i64) -> Value {
 }
 fn did_change(file: &str, text: &str, version: i64) -> Value {
     json!({"textDocument": {"uri": uri(file), "version": version}, "contentChanges": [{"text": text}]})
+}
+
+fn did_change_n(file: &str, texts: &[String], version: i64) -> Value {
+    let changes: Vec<Value> = texts.iter().map(|t| json!({ "text": t })).collect();
+    json!({"textDocument": {"uri": uri(file), "version": version}, "contentChanges": changes})
 }
 
 /// How the simulated editor numbers document versions (all legal under the LSP specification,
@@ -738,6 +757,18 @@ fn execute_inner(h: &History, seed_checks: usize, stats: &mut RunStats) -> Optio
                     long.notify(&method, did_change(file, text, v)).map(|_| None)
                 }
             }
+            Ev::ChangeN { file, texts } => {
+                method = "textDocument/didChange".into();
+                stats.buffer_events += 1;
+                if let Some(last) = texts.last() {
+                    if !world.open_order.contains(file) {
+                        world.open_order.push(file.clone());
+                    }
+                    world.buffers.insert(file.clone(), last.clone());
+                }
+                let v = versions.change(file);
+                long.notify(&method, did_change_n(file, texts, v)).map(|_| None)
+            }
             Ev::Close { file } => {
                 method = "textDocument/didClose".into();
                 stats.buffer_events += 1;
@@ -991,7 +1022,9 @@ pub fn gen_history(seed: u64, k: u64, max_events: usize) -> History {
         1 => Some("[build]\nentry = \"other.asm\"\n".to_string()),
         _ => Some("[build]\nentry = \"main.asm\"\n".to_string()),
     };
+    model_disk.insert("mos.toml".to_string(), toml.clone());
     // swarm knobs
+    let w_multi = rng.below(4) as u32;
     let w_req = 6 + rng.below(10) as u32;
     let w_mut = 2 + rng.below(8) as u32;
     let w_var = 1 + rng.below(3) as u32;
@@ -1029,8 +1062,10 @@ pub fn gen_history(seed: u64, k: u64, max_events: usize) -> History {
                     rng.pick(&open).clone()
                 } else if roll < 85 {
                     rng.pick(lc::FILES).to_string()
-                } else if roll < 95 {
+                } else if roll < 92 {
                     "ghost.asm".to_string()
+                } else if roll < 95 {
+                    UNTITLED.to_string()
                 } else {
                     "/elsewhere/x.asm".to_string()
                 };
@@ -1061,10 +1096,27 @@ pub fn gen_history(seed: u64, k: u64, max_events: usize) -> History {
                         lc::typing_sequence(&mut rng, &cur, &to, 4)
                     }
                 };
-                for t in new_texts {
-                    old_texts.insert(file.clone(), buffers[&file].clone());
-                    buffers.insert(file.clone(), t.clone());
-                    events.push(Ev::Change { file: file.clone(), text: t });
+                if rng.chance(w_multi, 12) {
+                    // one notification with no, two or three content changes (each a full text)
+                    let mut texts: Vec<String> = vec![];
+                    if !rng.chance(1, 4) {
+                        texts.push(lc::mutate(&mut rng, &cur));
+                        if rng.chance(1, 3) {
+                            texts.push(rng.pick(lc::variants_of(&file)).to_string());
+                        }
+                        texts.push(new_texts.last().cloned().unwrap_or_default());
+                    }
+                    if let Some(last) = texts.last() {
+                        old_texts.insert(file.clone(), buffers[&file].clone());
+                        buffers.insert(file.clone(), last.clone());
+                    }
+                    events.push(Ev::ChangeN { file: file.clone(), texts });
+                } else {
+                    for t in new_texts {
+                        old_texts.insert(file.clone(), buffers[&file].clone());
+                        buffers.insert(file.clone(), t.clone());
+                        events.push(Ev::Change { file: file.clone(), text: t });
+                    }
                 }
                 if !past_requests.is_empty() && rng.chance(w_repeat, 12) {
                     let e = rng.pick(&past_requests).clone();
@@ -1078,7 +1130,7 @@ pub fn gen_history(seed: u64, k: u64, max_events: usize) -> History {
                 }
                 let file = rng.pick(&open).clone();
                 // editors usually save before closing; sometimes they do not
-                if rng.chance(2, 3) {
+                if rng.chance(2, 3) && !file.starts_with("untitled:") {
                     let t = buffers[&file].clone();
                     model_disk.insert(file.clone(), Some(t.clone()));
                     events.push(Ev::Disk { file: file.clone(), state: DiskState::Text(t) });
@@ -1088,7 +1140,8 @@ pub fn gen_history(seed: u64, k: u64, max_events: usize) -> History {
                 events.push(Ev::Close { file });
             }
             5 => {
-                let closed: Vec<&str> = lc::FILES.iter().cloned().filter(|f| !buffers.contains_key(*f)).collect();
+                let docs: &[&str] = if rng.chance(1, 3) { lc::DOCS } else { lc::FILES };
+                let closed: Vec<&str> = docs.iter().cloned().filter(|f| !buffers.contains_key(*f)).collect();
                 if closed.is_empty() {
                     continue;
                 }
@@ -1143,7 +1196,7 @@ fn legal(events: &[Ev]) -> bool {
                     return false;
                 }
             }
-            Ev::Change { file, .. } => {
+            Ev::Change { file, .. } | Ev::ChangeN { file, .. } => {
                 if !open.contains(file.as_str()) {
                     return false;
                 }
